@@ -76,7 +76,10 @@ func (rt Rate) Recalculate(minimum time.Duration) (Rate, error) {
 	// integer overflows are not possible given the checks above
 	interval := time.Duration(uint64(rt.Interval) / rt.Quantity)
 
-	if interval > minimum {
+	// If the quotient is equal to the minimum (and this minimum is not zero) then it is
+	// also suitable, moreover, due to integer division, recalculating the quantity
+	// in this case can give zero
+	if interval > minimum || (interval == minimum && minimum != 0) {
 		recalculated := Rate{
 			Interval: interval,
 			Quantity: 1,
